@@ -27,7 +27,8 @@ pub fn generics(
                 for module in statements {
                     match &module.node {
                         Node::Class { .. } | Node::TypeDef { .. } | Node::TypeAlias { .. } => {
-                            types.insert(GenericClass::try_from(module)?);
+                            // a definition replaces the placeholder an import of the same name left in an earlier file
+                            types.replace(GenericClass::try_from(module)?);
                         }
                         Node::FunDef { .. } => {
                             functions.insert(GenericFunction::try_from(module)?);
